@@ -58,11 +58,18 @@ def resMatches (impl model : String) : Bool :=
     | ["ok", d1, "?"], ["ok", d2, _] => d1 == d2
     | _, _ => false
 
+/-- Spec: a value the implementation ACCEPTED from the wire must not be one the property says is invalid. -/
+def acceptedInvalid {V} (F : Format V) (res : String) : Option String :=
+  match res.splitOn "/" with
+  | ["ok", d, _] => (F.parse d).bind F.invalid
+  | _ => none
+
 def handleEnc {V} [BEq V] (F : Format V) (desc hex trailer res : String) : String :=
   match F.parse desc with
   | none => "skip parse-desc"
   | some v =>
     if res == "panic" then s!"specfail panic-{F.name} desc={desc.take 80}" else
+    if let some cls := acceptedInvalid F res then s!"specfail accepted-invalid-{cls} desc={desc.take 80} impl={res.take 80}" else
     if hex == "merr" then
       if F.encOk v then s!"diff {F.name}-enc model encodes, implementation refused desc={desc.take 80}" else "ok"
     else
@@ -89,11 +96,7 @@ def handleDec {V} (F : Format V) (hex res : String) : String :=
   | some b =>
     if res == "panic" then s!"specfail panic-{F.name} hex={hex.take 80}" else
     -- Spec: accepted values must be valid ones
-    let bad : Option String :=
-      match res.splitOn "/" with
-      | ["ok", d, _] => (F.parse d).bind F.invalid
-      | _ => none
-    match bad with
+    match acceptedInvalid F res with
     | some cls => s!"specfail accepted-invalid-{cls} hex={hex.take 80} impl={res.take 80}"
     | none =>
       let mres := showRes F b (F.dec b)
@@ -106,6 +109,11 @@ def handleStream {V} (F : Format V) (descs hex got : String) : String :=
     let mgot := mvs.map (fun (v, off) => s!"{F.shw v}@{off}") ++
       (match me with | some e => ["!" ++ ((showErr e).drop 4).toString] | none => [])
     let mgotS := if mgot.isEmpty then "-" else "~".intercalate mgot
+    let badItem := (got.splitOn "~").findSome? fun it =>
+      match it.splitOn "@" with
+      | [d, _] => (F.parse d).bind F.invalid
+      | _ => none
+    if let some cls := badItem then s!"specfail accepted-invalid-{cls} in-stream" else
     -- Spec: all values canonical ⇒ the implementation read back exactly the written list, and the last
     -- offset is the stream length (alignment)
     if vs.all F.canon then
